@@ -78,9 +78,13 @@ def _gen_bulk(r, op, kind, st, p_bad, sizes):
     holding items its own constructor accepts -- which need not obey the rule of the receiving sequence."""
     if r.random() < 0.35:
         akind = r.choice(['root', 'sr', 'nonsr', kind])
-        xs = [_gen_item(r, akind, st, 0.0, init=True) for _ in range(r.choice(sizes))]
+        xs = []
+        for _ in range(r.choice(sizes)):
+            d = _gen_item(r, akind, st, 0.0, init=True)
+            while 'dup' in d:                       # fresh items only: their fields are adjusted below
+                d = _gen_item(r, akind, st, 0.0, init=True)
+            xs.append(d)
         for d in xs:
-            d.pop('dup', None)
             if akind == 'root':
                 d['cls'] = 'container'
             if akind == 'nonsr':
